@@ -18,7 +18,7 @@ REPO = os.environ.get("MDX_REPO", "/repo")
 BUILD = os.path.join(VERIF, "build")
 DRIVER_TARGET = os.path.join(BUILD, "driver-target")
 DRIVER = os.path.join(DRIVER_TARGET, "debug", "mdx-facts")
-TARGET = os.path.join(BUILD, "target")
+TARGET = os.environ.get("MDX_TARGET") or os.path.join(BUILD, "target")     # parallel tools use one cargo target dir per worker
 CRATES = ["pool_manager", "farm_manager", "epoch_manager", "fee_collector", "mantra_dex_std", "mantra_utils"]
 PKGS = ["pool-manager", "farm-manager", "epoch-manager", "fee-collector"]
 FP_PREFIX = ["pool-manager", "farm-manager", "epoch-manager", "fee-collector", "mantra-dex-std", "mantra-utils"]
@@ -83,7 +83,7 @@ def extract(repo=REPO, force=False, log=sys.stderr):
     os.makedirs(os.path.join(BUILD, "facts"), exist_ok=True)
     th = tree_hash(repo)
     out = os.path.join(BUILD, "facts", th)
-    lockp = os.path.join(BUILD, "extract.lock")
+    lockp = os.path.join(BUILD, "extract.lock") if not os.environ.get("MDX_TARGET") else TARGET.rstrip("/") + ".lock"
     t0 = time.time()
     with open(lockp, "w") as lk:
         fcntl.flock(lk, fcntl.LOCK_EX)
@@ -139,7 +139,7 @@ def extract(repo=REPO, force=False, log=sys.stderr):
         base = os.path.join(BUILD, "facts")
         ds = sorted((os.path.getmtime(os.path.join(base, d)), d) for d in os.listdir(base)
                     if os.path.isdir(os.path.join(base, d)) and not d.endswith(".part"))
-        for _, d in ds[:-6]:
+        for _, d in ds[:-12]:
             shutil.rmtree(os.path.join(base, d), ignore_errors=True)
         return out, info
 
